@@ -34,7 +34,12 @@ def add_noise(e: ESpec):
     enum id): shared helpers parse every attribute for every derive, so a change made for one derive can leak into another."""
     import hashlib
     h = int(hashlib.sha1(e.id.encode()).hexdigest(), 16)
-    if h % 3 != 0 or e.extra.get('no_noise'):
+    if e.extra.get('no_noise'):
+        return
+    # declared through a macro_rules! wrapper that supplies the derives (semantics-preserving, so on every second enum)
+    if 'via_macro' not in e.extra and not e.extra.get('pre_items'):
+        e.extra['via_macro'] = bool((h >> 66) & 1)
+    if h % 3 != 0:
         return
     consumes = set(e.derives)
     for k, v in enumerate(e.variants):
